@@ -70,6 +70,9 @@ pub enum Op {
     DropRange(Bd, Bd),
     Clear,
     Ingest(Vec<(usize, bool)>), // (key idx ascending, tombstone?)
+    /// an ingestion that is started, written to and then DROPPED without `finish()` (its table / blob files are leftovers
+    /// that the next recovery has to remove; nothing becomes visible)
+    AbandonIngest(Vec<usize>),
     SnapOpen,
     SnapRelease(usize),
     Reopen,
@@ -120,6 +123,7 @@ impl Op {
             Op::Fifo(l, t) => format!("fifo {l} {t}"),
             Op::DropRange(a, b) => format!("drop_range {} {}", bd_s(a), bd_s(b)),
             Op::Clear => "clear".into(),
+            Op::AbandonIngest(v) => format!("abandon_ingest {}", v.iter().map(|k| k.to_string()).collect::<Vec<_>>().join(",")),
             Op::Ingest(v) => format!("ingest {}", v.iter().map(|(k, t)| format!("{k}:{}", u8::from(*t))).collect::<Vec<_>>().join(",")),
             Op::SnapOpen => "snap_open".into(),
             Op::SnapRelease(i) => format!("snap_release {i}"),
@@ -149,6 +153,7 @@ impl Op {
             "fifo" => Op::Fifo(t[1].parse().ok()?, t[2].parse().ok()?),
             "drop_range" => Op::DropRange(bd_p(t[1]), bd_p(t[2])),
             "clear" => Op::Clear,
+            "abandon_ingest" => Op::AbandonIngest(t.get(1).copied().unwrap_or("").split(',').filter_map(|x| x.parse().ok()).collect()),
             "ingest" => Op::Ingest(pairs(t.get(1).copied().unwrap_or("")).into_iter().map(|(k, b)| (k, b == 1)).collect()),
             "snap_open" => Op::SnapOpen,
             "snap_release" => Op::SnapRelease(t[1].parse().ok()?),
@@ -372,7 +377,7 @@ pub fn gen_case(rng: &mut Rng, profile: Profile, blob: bool, max_ops: u64) -> Ca
                     for _ in 0..(1 + rng.below(5)) {
                         ks.insert(rng.below(nk) as usize);
                     }
-                    Op::Ingest(ks.into_iter().map(|k| (k, rng.chance(1, 4))).collect())
+                    if rng.chance(1, 5) { Op::AbandonIngest(ks.into_iter().collect()) } else { Op::Ingest(ks.into_iter().map(|k| (k, rng.chance(1, 4))).collect()) }
                 } else if pick(w_drop) {
                     Op::DropRange(gen_bd(rng, nkeys), gen_bd(rng, nkeys))
                 } else if pick(w_clear) {
@@ -501,6 +506,8 @@ struct Ctx {
     weak_used: bool,
     /// totals of every blob file ever seen in a published version: id -> (items, uncompressed bytes, on-disk bytes)
     blob_totals: std::cell::RefCell<BTreeMap<u64, (usize, u64, u64)>>,
+    /// files of ingestions dropped without finish(): allowed on disk until the next recovery, which has to remove them
+    leftovers: std::cell::RefCell<BTreeSet<String>>,
 }
 
 fn open_tree(c: &Ctx0) -> AnyTree {
@@ -924,6 +931,10 @@ fn audit(c: &Ctx, tag: &str, fails: &mut Vec<String>) {
                 fails.push(format!("C20 after `{tag}`: {what} {id} is named by a live history entry but is not on disk"));
             }
             for id in disk.difference(named) {
+                let sub = if what == "table" { "tables" } else if what == "blob file" { "blobs" } else { "" };
+                if c.leftovers.borrow().contains(&format!("{sub}/{id}")) {
+                    continue; // file of an ingestion dropped without finish(): the next recovery removes it (checked there)
+                }
                 fails.push(format!("C20 after `{tag}`: {what} {id} is on disk but no live history entry names it (not reclaimed)"));
             }
         }
@@ -1088,6 +1099,7 @@ fn run_case_inner(case: &Case, runner: &mut Runner) -> Outcome {
         ingest_nonce: 0,
         weak_used: false,
         blob_totals: std::cell::RefCell::new(BTreeMap::new()),
+        leftovers: std::cell::RefCell::new(BTreeSet::new()),
     };
     let mut out = Outcome { disagreement: None, oracle_failures: vec![], steps: 0, counters: BTreeMap::new(), nontrivial: false };
     let filter_arg = cfg.filter_seed.map_or("none".to_string(), |s| s.to_string());
@@ -1222,6 +1234,38 @@ fn run_case_inner(case: &Case, runner: &mut Runner) -> Outcome {
                 model_res = runner.validate(&c, &format!("clear mem={next_mem}"), &tag);
                 bump(&mut out, "op.clear");
             }
+            Op::AbandonIngest(kis) => {
+                let ks: BTreeSet<K> = kis.iter().map(|ki| c.keys[*ki % nk].clone()).filter(|k| !c.weak_state.contains_key(k) && !c.once_keys.contains(k)).collect();
+                if ks.is_empty() {
+                    continue;
+                }
+                let next_mem = index_tree(&c.tree).0.memtable_id_counter.get();
+                let ls = |sub: &str| -> BTreeSet<String> { std::fs::read_dir(c.dir.path().join(sub)).map(|rd| rd.flatten().map(|e| e.file_name().to_string_lossy().to_string()).collect()).unwrap_or_default() };
+                let (t0, b0) = (ls("tables"), ls("blobs"));
+                {
+                    let mut ing = c.tree.ingestion().unwrap();
+                    for k in &ks {
+                        ing.write(k.clone(), format!("{}@abandoned", hex(k)).into_bytes()).unwrap();
+                    }
+                    // dropped here, never finished
+                }
+                for f in ls("tables").difference(&t0) {
+                    c.leftovers.borrow_mut().insert(format!("tables/{f}"));
+                }
+                for f in ls("blobs").difference(&b0) {
+                    c.leftovers.borrow_mut().insert(format!("blobs/{f}"));
+                }
+                // creating an ingestion seals and flushes the active memtable first (like a finished one with no items would)
+                let _ = next_mem;
+                // nothing may have changed logically
+                if let Some(reply) = runner.ask("digest") {
+                    let real = canon_state(&c);
+                    if !reply.starts_with(&format!("digest={}", digest_of(&real))) {
+                        model_res = Err(format!("state changed by an ingestion that was dropped without finish() (`{tag}`): {real}"));
+                    }
+                }
+                bump(&mut out, "op.abandon_ingest");
+            }
             Op::Ingest(items) => {
                 let items: Vec<(K, bool)> = items.iter().map(|(ki, t)| (c.keys[*ki % nk].clone(), *t)).filter(|(k, _)| !c.weak_state.contains_key(k) && !c.once_keys.contains(k)).collect();
                 let mut items: Vec<(K, bool)> = items.into_iter().collect::<BTreeMap<_, _>>().into_iter().collect();
@@ -1302,6 +1346,12 @@ fn run_case_inner(case: &Case, runner: &mut Runner) -> Outcome {
                     drop(old);
                     c.tree = open_tree(&Ctx0 { cfg: &c.cfg, path: &path, seqno: &c.seqno, vis: &c.vis, cache: &c.cache, fds: &c.fds, flog: &c.flog, once });
                     c.snaps.clear();
+                    // recovery removes what an ingestion dropped without finish() left behind (C20: "always after a reopen")
+                    for f in std::mem::take(&mut *c.leftovers.borrow_mut()) {
+                        if c.dir.path().join(&f).exists() {
+                            out.oracle_failures.push(format!("C20 after `{tag}`: `{f}` (written by an ingestion that was dropped without finish()) is still on disk after the reopen"));
+                        }
+                    }
                     if c.tree.get_highest_persisted_seqno() != hp_before {
                         out.oracle_failures.push(format!("C18 after `{tag}`: get_highest_persisted_seqno changed across reopen: {:?} -> {:?}", hp_before, c.tree.get_highest_persisted_seqno()));
                     }
@@ -1313,14 +1363,48 @@ fn run_case_inner(case: &Case, runner: &mut Runner) -> Outcome {
                 let s = if *sel == 0 || c.snaps.is_empty() { c.vis.get() } else { c.snaps[(*sel - 1) % c.snaps.len()] };
                 let (lob, los) = bound_of(lo, &c.keys);
                 let (hib, his) = bound_of(hi, &c.keys);
-                let mut it = c.tree.range::<K, _>((lob.clone(), hib.clone()), s, None);
+                // an overlay memtable (a transaction's write set) in about half of the scans, derived from the op text so that
+                // replays see the same one: entries stamped AT OR ABOVE the counter (newer than anything in the tree, hence also
+                // above an old snapshot `s`), visible according to the overlay's OWN bound `os`
+                let mut orng = Rng::new(fnv(format!("{tag}/{los}/{his}/{word}/{s}").as_bytes()));
+                let ctr = c.seqno.get();
+                let overlay: Option<(Vec<Ent>, SeqNo)> = if orng.chance(1, 2) {
+                    let mut es: Vec<Ent> = vec![];
+                    for j in 0..(1 + orng.below(3)) {
+                        let k = orng.pick(&c.keys).clone();
+                        if es.iter().any(|e| e.key == k) {
+                            continue;
+                        }
+                        let q = ctr + j;
+                        es.push(if orng.chance(1, 3) { Ent { key: k, seqno: q, vt: 1, val: vec![] } } else { Ent { key: k.clone(), seqno: q, vt: 0, val: format!("{}@overlay{q}", hex(&k)).into_bytes() } });
+                    }
+                    Some((es, *orng.pick(&[ctr, ctr + 1, SeqNo::MAX])))
+                } else {
+                    None
+                };
+                let real_overlay = overlay.as_ref().map(|(es, os)| {
+                    let m = lsm_tree::Memtable::new(u64::MAX - 1);
+                    for e in es {
+                        m.insert(e.to_internal());
+                    }
+                    (Arc::new(m), *os)
+                });
+                let mut it = c.tree.range::<K, _>((lob.clone(), hib.clone()), s, real_overlay);
                 let mut items = vec![];
                 for ch in word.chars() {
                     let x = if ch == 'F' { it.next() } else { it.next_back() };
                     items.push(x.map(kv_of));
                 }
                 // oracle: consume the expected list from both ends
-                let mut expect: std::collections::VecDeque<(K, Vec<u8>)> = c.keys.iter().filter(|k| inside(&lob, &hib, k)).filter_map(|k| match c.oracle.get(s, k) { Some(Some(v)) => Some((k.clone(), v)), Some(None) => None, None => c.tree.get(k, s).unwrap().map(|v| (k.clone(), v.to_vec())) }).collect();
+                let mut expect: std::collections::VecDeque<(K, Vec<u8>)> = c.keys.iter().filter(|k| inside(&lob, &hib, k)).filter_map(|k| {
+                    // a visible overlay entry (seqno below the overlay's bound) is newer than every tree entry
+                    if let Some((es, os)) = &overlay {
+                        if let Some(e) = es.iter().find(|e| &e.key == k && e.seqno < *os) {
+                            return if e.vt == 0 { Some((k.clone(), e.val.clone())) } else { None };
+                        }
+                    }
+                    match c.oracle.get(s, k) { Some(Some(v)) => Some((k.clone(), v)), Some(None) => None, None => c.tree.get(k, s).unwrap().map(|v| (k.clone(), v.to_vec())) }
+                }).collect();
                 let crosses = expect.len() >= 2;
                 for (i, ch) in word.chars().enumerate() {
                     let want = if ch == 'F' { expect.pop_front() } else { expect.pop_back() };
@@ -1329,7 +1413,11 @@ fn run_case_inner(case: &Case, runner: &mut Runner) -> Outcome {
                         break;
                     }
                 }
-                if let Some(reply) = runner.ask(&format!("scan S={s} lo={los} hi={his} word={word}")) {
+                if overlay.is_some() {
+                    bump(&mut out, "scan.with_overlay");
+                }
+                let ov = overlay.as_ref().map_or(String::new(), |(es, os)| { let mut l = es.clone(); l.sort_by(ik_cmp); format!(" overlay={} os={os}", show_ents(&l)) });
+                if let Some(reply) = runner.ask(&format!("scan S={s} lo={los} hi={his} word={word}{ov}")) {
                     let imp = format!("items={}", items.iter().map(|x| match x { Some((k, v)) => format!("{}=V{}", hex(k), hex(v)), None => "-".into() }).collect::<Vec<_>>().join("|"));
                     let imp_cmp = if c.cfg.blob.is_some() { strip_vt(&imp) } else { imp.clone() };
                     let rep_cmp = if c.cfg.blob.is_some() { strip_vt(&reply) } else { reply.clone() };
